@@ -48,7 +48,7 @@ Failures(T, i, g2) ==
              \cup Fail("KnownIffSetAndNotSinceUnset", e.o, KnownIffMeant(post, g2))
              \cup Fail("KnownHasLowerEqUpperEqValue", e.o, KnownIsExact(post, g2))
         ELSE {})
-  \cup UNION { GetterClauses(e.objs[j], j) : j \in 1..Len(e.objs) }
+  \cup (IF T.light = 1 THEN {} ELSE UNION { GetterClauses(e.objs[j], j) : j \in 1..Len(e.objs) })
 
 TraceInit == tid \in 1..Len(Traces) /\ l = 0 /\ gh = <<InitGhost>>
 
